@@ -218,6 +218,9 @@ def run(cx: Cx):
     for fn, loc, field in ((remc, MC, '_components'), (remi, AC, 'components')):
         check_keyed_delete(cx, fn.qualname, loc, Attr(Sym(fn.params[0]), field), Sym(fn.params[1]))
     _lookups(cx)
+    from .c13 import check_has_all
+    check_has_all(cx, META + '.has_class_component', '_components')
+    check_has_all(cx, CORE + 'Agent.has_component', 'components')
 
 
 def _subterms(t):
